@@ -15,6 +15,7 @@ TEXT_TYPES = ["text", "string", "integer", "int", "decimal", "date", "time", "da
               "geopoint", "gps", "geotrace", "geoshape", "barcode", "note"]
 UPLOAD_TYPES = ["photo", "image", "audio", "video", "file"]
 TRIGGER_TYPES = ["acknowledge", "trigger"]
+EXTERNAL_TYPES = ["xml-external", "csv-external"]      # rows that contribute a secondary instance only
 HIDDEN_TYPES = ["start", "end", "today", "deviceid", "username", "email", "phonenumber", "hidden"]
 SEL1 = ["select_one", "select one", "select1"]
 SELM = ["select_multiple", "select all that apply"]
@@ -159,7 +160,7 @@ def decorate(shapes, seed=0, feat=frozenset()):
             row["calculation"] = rnd.choice(["1 + 1", "concat('a', 'b')", "now()"] + ([f"{r0} + 1"] if r0 else []))
             labelled = False
         elif shape == "hidden":
-            row["type"] = rnd.choice(HIDDEN_TYPES)
+            row["type"] = rnd.choice(HIDDEN_TYPES + (EXTERNAL_TYPES if "externals" in feat else []))
             labelled = False
             if row["type"] == "hidden":
                 pass
